@@ -536,7 +536,86 @@ func (w *c12World) frameFamilies() []*c12Fam {
 			},
 		})
 	}
+	fams = append(fams, c12LinkGraphFamily())
 	return fams
+}
+
+// c12LinkGraphFamily: the `next` links of data frames are CIDs that a CAR section merely claims, so the frames of
+// a payload can be wired into any graph. The seed is a two-byte descriptor (number of frames k, wiring), from
+// which Run builds the k frames and serves them by CID; the deviations of the framework then enumerate other
+// descriptors. Wirings (byte 1 mod 6): 0 chain; 1 every frame lists its successor twice; 2 every frame lists its
+// successor and the one after it (shared children without a cycle); 3 the last frame links back to the first
+// continuation; 4 every frame links to itself as well; 5 every frame lists its successor three times.
+// Besides the usual oracle (no panic, no allocation out of proportion) the number of frame fetches is bounded:
+// a walk over k frames that fetches more than 64 x (k + 1) frames is doing work out of proportion to its input
+// (the fetch that crosses the bound is refused, so that an exponential walk ends).
+func c12LinkGraphFamily() *c12Fam {
+	return &c12Fam{Name: "frames/link-graph/2B", Format: "ipld-frame-graph", Seed: []byte{30, 1},
+		Run: func(x *c12Exec, in []byte) {
+			if len(in) < 2 {
+				return
+			}
+			k := int(in[0])
+			if k > 40 {
+				k = 40
+			}
+			wiring := int(in[1]) % 6
+			cidOf := func(i int) cid.Cid { return c12SyntheticCid(700_000 + i) }
+			pp := func(v int) **int { p := &v; return &p }
+			frames := make([]*ipldbindcode.DataFrame, k+1) // frame 0 is the first frame (inside the node)
+			for i := 0; i <= k; i++ {
+				var next ipldbindcode.List__Link
+				link := func(j int) {
+					if j >= 1 && j <= k {
+						next = append(next, cidlink.Link{Cid: cidOf(j)})
+					}
+				}
+				switch wiring {
+				case 0:
+					link(i + 1)
+				case 1:
+					link(i + 1)
+					link(i + 1)
+				case 2:
+					link(i + 1)
+					link(i + 2)
+				case 3:
+					link(i + 1)
+					if i == k {
+						link(1)
+					}
+				case 4:
+					link(i + 1)
+					link(i)
+				case 5:
+					link(i + 1)
+					link(i + 1)
+					link(i + 1)
+				}
+				pn := &next
+				frames[i] = &ipldbindcode.DataFrame{Kind: int(iplddecoders.KindDataFrame), Index: pp(i), Total: pp(k + 1), Data: []byte{byte(i)}, Next: &pn}
+			}
+			fetches, limit := 0, 64*(k+1)
+			getter := func(ctx context.Context, c cid.Cid) (*ipldbindcode.DataFrame, error) {
+				fetches++
+				if fetches > limit {
+					return nil, errors.New("c12: fetch limit reached")
+				}
+				for i := 1; i <= k; i++ {
+					if c.Equals(cidOf(i)) {
+						return frames[i], nil
+					}
+				}
+				return nil, errors.New("c12: no such frame")
+			}
+			ok := x.Guard(c12eLoadFrames, func() error { fetches = 0; _, err := tooling.LoadDataFromDataFrames(frames[0], getter); return err })
+			x.SeedOK(!ok, "a frame graph with duplicate links is expected to be refused")
+			if fetches > limit {
+				x.violation("C12|work|tooling.LoadDataFromDataFrames|fetches-out-of-proportion",
+					fmt.Sprintf("tooling.LoadDataFromDataFrames fetched more than %d frames for a payload of %d frames (wiring %d: see c12LinkGraphFamily): work out of proportion to the input, exponential in the number of frames", limit, k+1, wiring),
+					x.replay(c12eLoadFrames, map[string]interface{}{"frames": k + 1, "wiring": wiring, "fetches": fetches}))
+			}
+		}}
 }
 
 // ---------------------------------------------------------------------------------------------
